@@ -84,6 +84,13 @@ impl OutPat {
 pub const TAILS: [&[u8]; 4] = [NEXT, b"\r\nHTTP/1.1 204 X\r\n\r\n", b"0\r\n\r\nHTTP/1.1 200 OK\r\n\r\n", b"\r\n"];
 
 pub fn run_coding(coded: &Coded, cuts: &[usize], pat: OutPat, stop: bool, rec: &mut Rec) -> bool {
+    run_coding_toggle(coded, cuts, pat, stop, 0, rec)
+}
+
+/// `toggle_every` > 0: the boundary-stop switch is flipped every that many reads (each read is
+/// judged with the setting in force when it was made).
+pub fn run_coding_toggle(coded: &Coded, cuts: &[usize], pat: OutPat, stop: bool, toggle_every: usize, rec: &mut Rec) -> bool {
+    let mut stop = stop;
     let tail = TAILS[(coded.bytes.len() + cuts.len() + cuts.first().copied().unwrap_or(0)) % 4];
     let mut stream = coded.bytes.clone();
     stream.extend_from_slice(tail);
@@ -121,6 +128,11 @@ pub fn run_coding(coded: &Coded, cuts: &[usize], pat: OutPat, stop: bool, rec: &
                 osz = outstanding.min(n);
             }
             call_i += 1;
+            if toggle_every > 0 && call_i % toggle_every == 0 {
+                stop = !stop;
+                f.stop_on_chunk_boundary(stop);
+                rec.cov("boundary-stop/toggled-mid-body");
+            }
             let mut buf = vec![0u8; osz];
             rec.call();
             hookmon::arm(4 * (window.len() as u64 + osz as u64) + 64);
@@ -440,8 +452,9 @@ fn random_case(rng: &mut Rng, rec: &mut Rec) {
             }
         };
         let stop = rng.chance(1, 2);
+        let toggle = if rng.chance(1, 4) { rng.usize_in(1, 5) } else { 0 };
         cov_cuts(&coded, &cuts, pat, stop, rec);
-        if !run_coding(&coded, &cuts, pat, stop, rec) {
+        if !run_coding_toggle(&coded, &cuts, pat, stop, toggle, rec) {
             return;
         }
     }
